@@ -551,7 +551,7 @@ pub fn run_job(w: &World, j: &VJob) -> Option<(String, Value)> {
 }
 
 // ------------------------------------------------------------------ building blocks
-const NONCE: &str = "123432421212";
+pub const NONCE: &str = "123432421212";
 
 fn pick(cred: usize, attrs: &[(&str, bool)], preds: &[&str], list: Option<usize>) -> Pick {
     Pick { cred, attrs: attrs.iter().map(|(r, b)| (r.to_string(), *b)).collect(), preds: preds.iter().map(|s| s.to_string()).collect(), list, inc: false }
@@ -1304,6 +1304,30 @@ fn c08_jobs(_r: &mut Rng, w: &World, thorough: bool) -> Vec<VJob> {
                 j.ctx.lists = Some(vec![2]);
                 j.class = "intervals:no-list-for-timestamp".into();
                 jobs.push(j);
+            }
+        }
+        // two credentials of ONE definition and registry shown for the same list (equal identifiers): the interval of each
+        // is decided by the referents IT serves - a local interval on one of them, the other under the request-wide one or none
+        for (l1, l8) in [(Some(0usize), Some(0usize)), (Some(1), Some(1)), (Some(0), Some(1)), (Some(1), None), (None, Some(1)), (None, None)] {
+            for local in [Some((Some(50u64), Some(350u64))), Some((Some(150), None)), Some((None, Some(150))), Some((Some(250), Some(400))), None] {
+                for global in [None, Some((Some(50u64), Some(150u64))), Some((Some(250), None)), Some((None, Some(250)))] {
+                    for on_first in [true, false] {
+                        if local.is_none() && !on_first {
+                            continue;
+                        }
+                        let build = ReqSpec::new(NONCE).attr("a_name", "name").attr("a_sex", "sex").pred("p_age", "age", ">=", 18).global((None, None));
+                        let mut verify = ReqSpec::new(NONCE).attr("a_name", "name").attr("a_sex", "sex").pred("p_age", "age", ">=", 18);
+                        if let Some(g) = global {
+                            verify = verify.global(g);
+                        }
+                        if let Some(l) = local {
+                            verify = verify.local(if on_first { "a_name" } else { "a_sex" }, l);
+                        }
+                        let mut j = job("intervals:two-credentials-one-registry", fmt, &build, &verify, vec![pick(1, &[("a_name", true)], &["p_age"], l1), pick(8, &[("a_sex", true)], &[], l8)], w);
+                        j.base = Base::StripIntervals;
+                        jobs.push(j);
+                    }
+                }
             }
         }
         // the status list stamped 0 (a timestamp like any other)
